@@ -57,7 +57,14 @@ type CompleteMultipartUploadRequest struct {
 }
 
 func (c CompleteMultipartUploadRequest) partsAreSorted() bool {
-	return sort.IntsAreSorted(c.partIDs())
+	// partIDs() returns a sorted copy, so the order has to be checked on the
+	// request's own list:
+	for i := 1; i < len(c.Parts); i++ {
+		if c.Parts[i-1].PartNumber > c.Parts[i].PartNumber {
+			return false
+		}
+	}
+	return true
 }
 
 func (c CompleteMultipartUploadRequest) partIDs() []int {
